@@ -59,10 +59,14 @@ def runOfJson (j : Json) : Except String Run := do
   let watchErr := match ((jstr j "watchErr").toOption.getD "").splitOn ":" with
     | ["wait", n, k] => some (n.toNat!, k.toNat!)
     | _ => none
+  let watchErrMut := match ((jstr j "watchErr").toOption.getD "").splitOn ":" with
+    | ["mut", k] => some k.toNat!
+    | _ => none
   return { destroy := (← jstr j "kind") = "destroy", objs := objs, opts := opts,
            failMut := ← natList j "failMut", failInvRead := ← natList j "failInvRead", failGet := failGet,
            ctrl := ← behaviours j "ctrl", del := ← behaviours j "del",
-           cancel := parseCancel ((jstr j "cancel").toOption.getD ""), watchErr := watchErr, envDel := envDel, initial := initial }
+           cancel := parseCancel ((jstr j "cancel").toOption.getD ""), watchErr := watchErr, watchErrMut := watchErrMut,
+           envDel := envDel, initial := initial }
 
 /-! JSON rendering in the shape of the Go harness -/
 
@@ -164,10 +168,12 @@ def obsOfJson (j : Json) : Except String Spec.RunObs := do
            final := ← snapOfJson (← jget j "final"),
            closed := jboolD j "closed" false, late := ((jint j "late").toOption.getD 0).toNat,
            anomaly := (jstr j "anomaly").toOption.getD "" ++ (jstr j "panic").toOption.getD "",
-           unreadable := (match jopt (← jget j "final") "inv" with | some (Json.str _) => true | _ => false) }
+           unreadable := (match jopt (← jget j "final") "inv" with | some (Json.str _) => true | _ => false),
+           cancelCalled := jboolD j "cancelCalled" false, watcherStopped := jboolD j "watcherStopped" true }
 
 def obsOfSt (s : St) : Spec.RunObs :=
-  { events := s.events.reverse, muts := s.muts.reverse, final := snapOf s.cl, closed := true, late := 0, anomaly := "", unreadable := false }
+  { events := s.events.reverse, muts := s.muts.reverse, final := snapOf s.cl, closed := true, late := 0, anomaly := "", unreadable := false,
+    cancelCalled := s.cancelled }
 
 /-- another list representing the same set: rotated by `k / 2`, reversed when `k` is odd -/
 def permInv (k : Nat) (l : List Id) : List Id :=
@@ -261,5 +267,51 @@ def handleSysFor (prop : String) : Handler := fun i o => do
   let tags := Spec.tagsOf hist obsI ++ (match hit with | some (_ :: _) => ["inv-order:non-default"] | _ => [])
   return { model := mj, agree := agree, spec := spec, specModel := specM, nontrivial := runs.length ≥ 1,
            note := why ++ (if specM then "" else " | model: " ++ whyM), tags := tags, region := region }
+
+/-- domain `sync-race`: the LAST run of the history is cancelled at the very moment the watcher's sync event becomes ready (the
+runner is busy forwarding a status event meanwhile), so that Go's `select` decides which of the two the runner sees first.
+Both outcomes are behaviours of the model (`runOneAtSync … false / true`); the implementation must show one of them, and in
+either the stream is well-formed, ends with the context error (if anything was to be done), the channel closes and the
+status watcher is stopped.  The scene adds two status events for the one object named in `initial` (the one the runner is kept
+busy with): the model gets them as extra initial statuses. -/
+def handleSyncRace : Handler := fun i o => do
+  let pre ← (← asList (← jget i "pre")).mapM manifestOfJson
+  let runs ← (← asList (← jget i "runs")).mapM runOfJson
+  let c0 : Cluster := pre.foldl (fun c m => c.putPre m) {}
+  let n := runs.length
+  let (cPrev, stsRev) := (runs.take (n - 1)).foldl (fun (acc : Cluster × List St) r =>
+      let s := runOne acc.1 r
+      (s.cl, s :: acc.2)) (c0, [])
+  let last ← match runs.getLast? with | some r => pure r | none => throw "sync-race: no run"
+  let last' := { last with initial := last.initial ++ last.initial ++ last.initial }
+  let variant (b : Bool) : List St := stsRev.reverse ++ [runOneAtSync cPrev last' b]
+  let jsonOf (sts : List St) : Json := Json.mkObj [("pre", snapJson (snapOf c0)), ("runs", Json.arr (sts.map runJson).toArray)]
+  let oRuns ← asList (← jget o "runs")
+  let oc := Json.mkObj [("pre", canonSnap (← jget o "pre")),
+    ("runs", Json.arr (oRuns.map (fun r => canonRun ((r.setObjVal! "closed" (jboolD r "closed" false)).setObjVal! "late" ((jint r "late").toOption.getD 0)))).toArray)]
+  let strip (r : Json) : Json := Json.mkObj [("events", (jopt r "events").getD Json.null), ("muts", (jopt r "muts").getD Json.null),
+    ("final", (jopt r "final").getD Json.null), ("closed", (jopt r "closed").getD Json.null), ("late", (jopt r "late").getD Json.null)]
+  let ocs := match jopt oc "runs" with
+    | some (Json.arr a) => oc.setObjVal! "runs" (Json.arr (a.map strip))
+    | _ => oc
+  let a := jsonOf (variant false)
+  let b := jsonOf (variant true)
+  let which := if a == ocs then "cancel-first" else if b == ocs then "sync-first" else "neither"
+  let obsI ← oRuns.mapM obsOfJson
+  let snap0 ← snapOfJson (← jget o "pre")
+  let hist : Spec.History := { pre := pre, snap0 := snap0, runs := runs }
+  let (s13, why13) := Spec.checkHistory "C13" hist obsI
+  let (s12, why12) := Spec.checkHistory "C12" hist obsI
+  let lastObs := obsI.getLast?
+  let endsRight := match lastObs with
+    | some ob => (match ob.events.getLast? with
+        | some (Ev.error k) => k == "canceled"
+        | _ => !(ob.events.any fun e => match e with | .group _ _ _ => true | _ => false))   -- nothing was to be done
+    | none => false
+  let spec := s13 && s12 && endsRight
+  let why := (if s13 then "" else why13) ++ (if s12 then "" else why12) ++
+    (if endsRight then "" else "C12: the cancelled run does not end with the context error")
+  return { model := if which == "sync-first" then b else a, agree := which != "neither", spec := spec, specModel := true,
+           nontrivial := true, note := why, tags := [s!"sync-race:{which}"], region := none }
 
 end CliUtils.Drv.SysD
